@@ -140,6 +140,10 @@ pub fn alpha_eq(a: &RTy, b: &RTy) -> bool {
 const PRELUDE: &str = "pub type Color { Red Green }
 pub type Pair { Pair(first: Int, second: String) }
 pub type Box(a) { Box(inner: a) }
+pub type Triple { Triple(ta: Int, tb: String, tc: Float) }
+pub type G(a, b, c) { G(ga: a, gb: b, gc: c) }
+pub type U3 { U3(Int, String, Float) }
+pub type M4(d) { M4(Int, mb: String, mc: Float, md: d) }
 type Ints = List(Int)
 fn inc(n: Int) -> Int { n + 1 }
 fn add(a: Int, b: Int) -> Int { a + b }
@@ -151,7 +155,7 @@ fn try_(r: Result(a, e), k: fn(a) -> Result(b, e)) -> Result(b, e) { case r { Ok
 fn map(l: List(a), f: fn(a) -> b) -> List(b) { case l { [] -> [] [h, ..t] -> [f(h), ..map(t, f)] } }
 ";
 
-const PARAMS: &str = "i: Int, f: Float, s: String, b: Bool, l: List(Int), t: #(Int, String), r: Result(Int, String), g: fn(Int) -> Int, c: Color, p: Pair, bx: Box(Int), ls: List(String)";
+const PARAMS: &str = "i: Int, f: Float, s: String, b: Bool, l: List(Int), t: #(Int, String), r: Result(Int, String), g: fn(Int) -> Int, c: Color, p: Pair, bx: Box(Int), ls: List(String), tr: Triple, gg: G(Int, String, Float), u3: U3, m4: M4(Bool)";
 
 fn pair() -> RTy {
     Named("Pair".into(), vec![])
@@ -424,6 +428,95 @@ fn pattern_cases() -> Vec<(String, Vec<(&'static str, RTy)>)> {
         ("let pcap = add(_, 1)".into(), vec![("pcap", fii())]),
         ("let pcap2 = labelled(_, y: s)".into(), vec![("pcap2", fii())]),
     ]
+}
+
+/// Constructor patterns and constructor calls over three fields of distinct types: every
+/// positional prefix followed by every ordered selection of the remaining fields as labelled
+/// arguments (with `..` when incomplete), for a plain and a generic record.
+fn record_cases() -> Vec<(String, Vec<(String, RTy)>)> {
+    struct Spec {
+        ctor: &'static str,
+        subj: &'static str,
+        ty: RTy,
+        fields: Vec<(Option<&'static str>, RTy, &'static str)>,
+    }
+    let specs = vec![
+        Spec { ctor: "Triple", subj: "tr", ty: Named("Triple".into(), vec![]), fields: vec![(Some("ta"), Int, "i"), (Some("tb"), Str, "s"), (Some("tc"), Float, "f")] },
+        Spec { ctor: "G", subj: "gg", ty: Named("G".into(), vec![Int, Str, Float]), fields: vec![(Some("ga"), Int, "i"), (Some("gb"), Str, "s"), (Some("gc"), Float, "f")] },
+        Spec { ctor: "U3", subj: "u3", ty: Named("U3".into(), vec![]), fields: vec![(None, Int, "i"), (None, Str, "s"), (None, Float, "f")] },
+        Spec { ctor: "M4", subj: "m4", ty: Named("M4".into(), vec![Bool]), fields: vec![(None, Int, "i"), (Some("mb"), Str, "s"), (Some("mc"), Float, "f"), (Some("md"), Bool, "b")] },
+    ];
+    let mut out = vec![];
+    // ordered selections of a set of indices
+    fn selections(items: &[usize]) -> Vec<Vec<usize>> {
+        let mut out: Vec<Vec<usize>> = vec![vec![]];
+        fn rec(cur: &mut Vec<usize>, items: &[usize], out: &mut Vec<Vec<usize>>) {
+            for &i in items {
+                if !cur.contains(&i) {
+                    cur.push(i);
+                    out.push(cur.clone());
+                    rec(cur, items, out);
+                    cur.pop();
+                }
+            }
+        }
+        rec(&mut vec![], items, &mut out);
+        out
+    }
+    let mut n = 0;
+    for sp in &specs {
+        let nf = sp.fields.len();
+        for prefix in 0..=nf {
+            // fields after the positional prefix that can be given by label
+            let rest: Vec<usize> = (prefix..nf).filter(|&k| sp.fields[k].0.is_some()).collect();
+            for sel in selections(&rest) {
+                let complete = prefix + sel.len() == nf;
+                n += 1;
+                let mut parts: Vec<String> = vec![];
+                let mut binders: Vec<(String, RTy)> = vec![];
+                for k in 0..prefix {
+                    let b = format!("r{n}p{k}");
+                    parts.push(b.clone());
+                    binders.push((b, sp.fields[k].1.clone()));
+                }
+                for &k in &sel {
+                    let b = format!("r{n}l{k}");
+                    parts.push(format!("{}: {b}", sp.fields[k].0.unwrap()));
+                    binders.push((b, sp.fields[k].1.clone()));
+                }
+                if !complete {
+                    parts.push("..".into());
+                }
+                if !binders.is_empty() {
+                    out.push((format!("let {}({}) = {}", sp.ctor, parts.join(", "), sp.subj), binders.clone()));
+                    // the same pattern in a case clause, returning each binder in turn
+                    for (bi, (bname, bty)) in binders.iter().enumerate() {
+                        let tag = format!("c{n}x{bi}");
+                        let cparts: Vec<String> = parts.iter().map(|p| p.replace(&format!("r{n}"), &tag)).collect();
+                        let mut all: Vec<(String, RTy)> = binders.iter().map(|(b, t)| (b.replace(&format!("r{n}"), &tag), t.clone())).collect();
+                        let cname = format!("{tag}res");
+                        all.push((cname.clone(), bty.clone()));
+                        out.push((format!("let {cname} = case {} {{ {}({}) -> {} }}", sp.subj, sp.ctor, cparts.join(", "), bname.replace(&format!("r{n}"), &tag)), all));
+                    }
+                }
+                // construction: only complete argument lists
+                if complete {
+                    let mut args: Vec<String> = vec![];
+                    for k in 0..prefix {
+                        args.push(sp.fields[k].2.to_string());
+                    }
+                    for &k in &sel {
+                        args.push(format!("{}: {}", sp.fields[k].0.unwrap(), sp.fields[k].2));
+                    }
+                    let b = format!("r{n}v");
+                    out.push((format!("let {b} = {}({})", sp.ctor, args.join(", ")), vec![(b, sp.ty.clone())]));
+                }
+            }
+        }
+    }
+    // field access
+    out.push(("let racc = #(tr.ta, tr.tb, tr.tc, gg.ga, gg.gb, gg.gc, m4.mb, m4.mc, m4.md)".into(), vec![("racc".into(), Tuple(vec![Int, Str, Float, Int, Str, Float, Str, Float, Bool]))]));
+    out
 }
 
 fn hover_type(an: &ide::Analysis, file: ide::FileId, off: usize) -> std::result::Result<Option<String>, String> {
@@ -849,6 +942,33 @@ pub fn run(tier: Tier) -> i32 {
     }
     pl.bound = format!("{} statements with pattern / lambda / case / use binders of known types (fixed list)", pcs.len());
     rep.layer(pl);
+    // records with three fields of distinct types: all label orders
+    let rcs = record_cases();
+    let mut rl = Layer { name: "record-patterns-and-constructions".into(), exhaustive: true, ..Default::default() };
+    let rres: Vec<Vec<Violation>> = rcs
+        .par_iter()
+        .map(|(stmt, binders)| {
+            let expect: Vec<(usize, &str, RTy)> = binders.iter().map(|(b, t)| (0usize, b.as_str(), t.clone())).collect();
+            check_bindings(&[stmt.clone()], &expect)
+                .into_iter()
+                .map(|(si, msg)| Violation { class: if si == usize::MAX { "machinery-syntax".into() } else { "binder-type".into() }, key: format!("record|{}", { let k = expr_key(stmt); k.chars().take(40).collect::<String>() }), witness: json!({"record_stmt": stmt}), detail: msg })
+                .collect()
+        })
+        .collect();
+    for (i, v) in rres.into_iter().enumerate() {
+        rl.states += 1;
+        rl.executions += 1;
+        rl.transitions += rcs[i].1.len() as u64;
+        for x in v {
+            if x.class == "machinery-syntax" {
+                rep.machinery(x.detail.clone());
+            } else {
+                rep.violation(x);
+            }
+        }
+    }
+    rl.bound = format!("{} statements: for four records (all fields labelled; generic; no labels; one unlabelled then three labelled with a type parameter) with fields of distinct types, every positional prefix followed by every ordered selection of the remaining labelled fields (patterns in let and in case, with `..` when incomplete; complete constructor calls), plus field access", rcs.len());
+    rep.layer(rl);
     graphs_layer(&mut rep, tier);
     rep.distinct_nontrivial = exprs.len() as u64;
     rep.distinct_outcomes = 1 + rep.violations.iter().map(|v| v.key.clone()).collect::<BTreeSet<_>>().len() as u64;
@@ -863,6 +983,12 @@ pub fn replay(w: &Value) -> Vec<String> {
     if let (Some(stmt), Some(t)) = (w["stmt"].as_str(), w["type"].as_str()) {
         let Some(ty) = parse_ty(t) else { return vec!["bad type".into()] };
         return check_bindings(&[stmt.to_string()], &[(0, "v0", ty)]).into_iter().map(|f| f.1).collect();
+    }
+    if let Some(stmt) = w["record_stmt"].as_str() {
+        if let Some((_, binders)) = record_cases().into_iter().find(|(s, _)| s == stmt) {
+            let expect: Vec<(usize, &str, RTy)> = binders.iter().map(|(b, t)| (0usize, b.as_str(), t.clone())).collect();
+            return check_bindings(&[stmt.to_string()], &expect).into_iter().map(|f| f.1).collect();
+        }
     }
     if let Some(stmt) = w["stmt"].as_str() {
         if let Some((_, binders)) = pattern_cases().into_iter().find(|(s, _)| s == stmt) {
